@@ -13,6 +13,10 @@ fresh_array = Intrinsic("fresh_array")  # fresh_array('name', n, 'real')
 uf = Intrinsic("uf")                  # uf('name', arity) -> callable uninterpreted function
 expect_raises = Intrinsic("expect_raises")  # expect_raises(Exc, callable, *args) -> bool/raises obligation
 note = Intrinsic("note")
+use_lemma = Intrinsic("use_lemma")  # use_lemma("sum_const", array, c, n): instance of a lemma proved in this run
+ssum = Intrinsic("ssum")            # ssum(n, lambda i: term)
+array_of = Intrinsic("array_of")
+pointwise = Intrinsic("pointwise")  # pointwise(n, lambda i: fact, id=..): proves fact at a generic index, then assumes it for all i    # array_of(n, lambda i: term)
 
 # formula builders (usable in clauses and in intrinsic arguments)
 implies = Intrinsic("implies")
